@@ -475,31 +475,52 @@ func genOp(c choice.Chooser, shape modeling.Mesh, pool []modeling.Mesh, unsuppor
 			return &r, ""
 		}}
 	case 6: // a new primitive (its tables and caches are shared with earlier ones)
-		var m modeling.Mesh
+		// every choice is drawn here; the mesh itself is built when the
+		// operation runs (in the concurrent scenario: inside a task, so that
+		// two tasks construct at the same time)
+		var build func() modeling.Mesh
 		name := ""
 		sides := 3 + c.Intn("prim:sides", 3)
 		h := float64(1 + c.Intn("prim:height", 3))
 		rad := []float64{0.5, 1}[c.Intn("prim:radius", 2)]
-		switch c.Intn("prim:kind", 8) {
+		switch c.Intn("prim:kind", 10) {
+		case 8, 9:
+			// the constructors with implied indices, over a wide range of
+			// sizes (1..4095): whatever they share or grow lazily behind
+			// the scenes (seeded change C01-c3: one package-level 0..n-1
+			// table) is then grown again and again while other values that
+			// lean on it are alive - in a fresh worker process every new
+			// record size is a growth
+			return impliedCtorOp(c, shape)
 		case 6, 7:
 			// valid but unusual: no faces at all, or vertices that no face
 			// uses (construction points) - of the receiver's topology, so
 			// that Append and friends accept it
-			m, name = degenerateMesh(c, shape.Topology())
+			m, n := degenerateMesh(c, shape.Topology())
+			build, name = func() modeling.Mesh { return m }, n
 		case 0:
-			m, name = primitives.Cone{Sides: sides, Height: h, Radius: rad}.ToMesh(), "primitives.Cone"
+			build, name = func() modeling.Mesh { return primitives.Cone{Sides: sides, Height: h, Radius: rad}.ToMesh() }, "primitives.Cone"
 		case 1:
-			m, name = primitives.Cylinder{Sides: sides, Height: h, Radius: rad}.ToMesh(), "primitives.Cylinder"
+			build, name = func() modeling.Mesh { return primitives.Cylinder{Sides: sides, Height: h, Radius: rad}.ToMesh() }, "primitives.Cylinder"
 		case 2:
-			m, name = primitives.Circle{Sides: sides, Radius: rad}.ToMesh(), "primitives.Circle"
+			build, name = func() modeling.Mesh { return primitives.Circle{Sides: sides, Radius: rad}.ToMesh() }, "primitives.Circle"
 		case 3:
-			m, name = primitives.UVSphere(rad, 2+c.Intn("prim:rows", 2), sides), "primitives.UVSphere"
+			rows := 2 + c.Intn("prim:rows", 2)
+			build, name = func() modeling.Mesh { return primitives.UVSphere(rad, rows, sides) }, "primitives.UVSphere"
 		case 4:
-			m, name = primitives.Cube{Height: h, Width: rad, Depth: 1, UVs: primitives.DefaultCubeUVs()}.Welded(), "primitives.Cube.Welded"
+			build, name = func() modeling.Mesh {
+				return primitives.Cube{Height: h, Width: rad, Depth: 1, UVs: primitives.DefaultCubeUVs()}.Welded()
+			}, "primitives.Cube.Welded"
 		default:
-			m, name = primitives.UnitCube(), "primitives.UnitCube"
+			build, name = func() modeling.Mesh { return primitives.UnitCube() }, "primitives.UnitCube"
 		}
-		return op{Name: name, Run: func(modeling.Mesh) (*modeling.Mesh, string) { return &m, "" }}
+		return op{Name: name, Run: func(modeling.Mesh) (*modeling.Mesh, string) {
+			var m modeling.Mesh
+			if p := safely(func() { m = build() }); p != "" {
+				return nil, "panic: " + p
+			}
+			return &m, ""
+		}}
 	case 4: // Append of a pool member with the same topology (the common derivation)
 		var same []modeling.Mesh
 		for _, p := range pool {
@@ -626,6 +647,37 @@ func genOp(c choice.Chooser, shape modeling.Mesh, pool []modeling.Mesh, unsuppor
 			return nil, note
 		}}
 	}
+}
+
+// impliedCtorOp: NewPointCloud / NewLineStripMesh with 1..4095 vertices.
+func impliedCtorOp(c choice.Chooser, shape modeling.Mesh) op {
+	e := c.Intn("prim:size-exp", 12)
+	n := 1<<e + c.Intn("prim:size-rest", 1<<e)
+	strip := shape.Topology() == modeling.LineStripTopology || (shape.Topology() != modeling.PointTopology && choice.Bool(c, "prim:strip"))
+	if strip && n < 2 {
+		n = 2
+	}
+	name := "modeling.NewPointCloud"
+	if strip {
+		name = "modeling.NewLineStripMesh"
+	}
+	return op{Name: name, Run: func(modeling.Mesh) (*modeling.Mesh, string) {
+		pos := make([]vector3.Float64, n)
+		for i := range pos {
+			pos[i] = vector3.New(float64(i), float64(i%7), 0.5)
+		}
+		var m modeling.Mesh
+		if p := safely(func() {
+			if strip {
+				m = modeling.NewLineStripMesh(map[string][]vector3.Float64{modeling.PositionAttribute: pos}, nil, nil, nil)
+			} else {
+				m = modeling.NewPointCloud(nil, map[string][]vector3.Float64{modeling.PositionAttribute: pos}, nil, nil, nil)
+			}
+		}); p != "" {
+			return nil, "panic: " + p
+		}
+		return &m, ""
+	}}
 }
 
 // degenerateMesh: the smallest meshes the constructors accept - an empty mesh,
